@@ -236,7 +236,7 @@ static void mode_enum(int n, bool sym, const std::string &kinds, const std::vect
             bool full = stride <= 1 && n <= 2;                                 // full cross of the knobs on the tiny cases
             caseid cl = {"enumlift", n, sym, mask, -1};
             for (char k : kinds) switch (k) {
-                case 'p': c_plain(*A, e, c); break;
+                case 'p': if (pick) c_plain(*A, e, c); break;
                 case 'l': if (pick) { c_lift(*A, e, 2, c); if (n <= 3 && knob == 0) c_lift(*A, e, 3, c); } break;
                 case 'a': if (pick) { c_agg(*A, e, 1, c); } break;
                 case 's': if (pick) { if (full) for (int rc = 0; rc < 3; ++rc) c_sa(*A, e, 1, rc, c); else c_sa(*A, e, 1, knob, c); } break;
@@ -422,8 +422,8 @@ int main(int argc, char **argv) {
         int stride = argc > 6 ? atoi(argv[6]) : 1;
         mode_enum(n, sym, kinds, modes, stride, (int)(seed % (uint64_t)std::max(1, stride)));
     }
-    else if (mode == "random") mode_random(seed, vr::env_int("VERIF_REPS", th ? 150 : 24), vr::env_int("VERIF_NMAX", th ? 300 : 120));
-    else if (mode == "ns") mode_ns(seed, vr::env_int("VERIF_REPS", th ? 400 : 80), vr::env_int("VERIF_NMAX", th ? 240 : 90));
+    else if (mode == "random") mode_random(seed, vr::env_int("VERIF_REPS", th ? 150 : 14), vr::env_int("VERIF_NMAX", th ? 300 : 100));
+    else if (mode == "ns") mode_ns(seed, vr::env_int("VERIF_REPS", th ? 400 : 60), vr::env_int("VERIF_NMAX", th ? 240 : 90));
     else if (mode == "poison") mode_poison(seed, vr::env_int("VERIF_REPS", th ? 200 : 40));
     vr::obj o; o.str("e", "End"); vr::emit(o.done());
     return 0;
